@@ -1,14 +1,14 @@
-SPECIFICATION MCSpec
-CONSTANTS Producers = {"p1", "p2", "p3", "p4"}
+SPECIFICATION MCFairSpec
+CONSTANTS Producers = {"p1", "p2"}
           Stoppers = {"M"}
-          UseLogger = FALSE
+          UseLogger = TRUE
           RecheckThread = TRUE
           SafeEnv = TRUE
           Locks = TRUE
           RealTime = FALSE
-          Disconnect = TRUE
+          Disconnect = FALSE
           NMsgs = 2
-          ScriptSet = {"sync"}
+          ScriptSet = {"dtorquit"}
           Script2Set = {"none"}
 INVARIANT TypeOK
 INVARIANT MutualExclusion
